@@ -87,5 +87,23 @@ func VX_C04_table() {
 			vx.Check(keys.k[d[a]] != keys.k[d[b]], "Distinct rows have different keys")
 		}
 	}
+	// a later call on fewer rows (state carried between calls must not leak into it)
+	if n >= 4 {
+		small := index.NewAscending(3)
+		d2 := Distinct(small, []column.Comparable{keys})
+		for a := 0; a < len(d2); a++ {
+			vx.Check(d2[a] < 3, "second Distinct: only rows of its own input")
+			for b := a + 1; b < len(d2); b++ {
+				vx.Check(d2[a] >= 3 || d2[b] >= 3 || keys.k[d2[a]] != keys.k[d2[b]], "second Distinct: rows have different keys")
+			}
+		}
+		for r := 0; r < 3; r++ {
+			found := false
+			for _, id := range d2 {
+				found = vx.Or(found, id < 3 && keys.k[id] == keys.k[r])
+			}
+			vx.Check(found, "second Distinct: every input key is represented")
+		}
+	}
 	vx.Reach("end")
 }
